@@ -426,9 +426,21 @@ class simplify_chained_calls(FuncADLNodeTransformer):
         """
         if type(call_node.func) is ast.Lambda:
             arg_asts = [self.visit(a) for a in call_node.args]
+            # Arguments given by keyword, then declared defaults, bind the remaining parameters
+            l_args = call_node.func.args
+            kw_asts = {k.arg: self.visit(k.value) for k in call_node.keywords}
+            n_no_default = len(l_args.args) - len(l_args.defaults)
+            default_asts = [self.visit(d) for d in l_args.defaults]
             with stack_frame(self._arg_stack):
-                for a_name, arg in zip(call_node.func.args.args, arg_asts):
+                for a_name, arg in zip(l_args.args, arg_asts):
                     self._arg_stack.define_name(a_name.arg, arg)
+                for i_arg, a_name in enumerate(l_args.args):
+                    if i_arg < len(arg_asts):
+                        continue
+                    if a_name.arg in kw_asts:
+                        self._arg_stack.define_name(a_name.arg, kw_asts[a_name.arg])
+                    elif i_arg >= n_no_default:
+                        self._arg_stack.define_name(a_name.arg, default_asts[i_arg - n_no_default])
                 # Now, evaluate the expression, and then lift it.
                 return self.visit(call_node.func.body)
         elif _is_method_call_on_first(call_node):
